@@ -284,6 +284,10 @@ class _Bulk:
         self.sid: int | None = None
 
     def on_request(self, srv: H2Server, sid: int) -> None:
+        if self.sid is not None:
+            # every later request gets a body-less answer (the connection window may be used up)
+            srv.conn.send_headers(sid, [(b":status", b"200"), (b"x-token", srv.path(sid))], end_stream=True)
+            return
         self.sid = sid
         srv.conn.send_headers(sid, [(b":status", b"200"), (b"x-token", srv.path(sid))])
         self.pump(srv)
@@ -336,3 +340,42 @@ def long_download(x: int) -> None:
                 lambda: f"flow:download:stalled-or-short:{got}/{total}:{r.kind()}")
         P.check(not su.origins[0].violations, "no-protocol-violation", "flow:download:violation")
         P.cover("complete")
+
+
+@harness(
+    "C13", "lagging_consumer",
+    quick=[{"total": 2**24 + 200_000}],
+    example=dict(x=0),
+    require=("window-ran-dry", "complete"),
+    timeout={"quick": 400, "thorough": 900},
+    symbolic="(none: one concrete transfer; the solver only confirms the single path)",
+    bounds="two streams on one connection: the first response (2^24 + 200,000 bytes, more than the client's whole credit) is left unread while a second request is served - which moves all the DATA the server could send into the first stream's event queue - and only then consumed; sync client, server strictly obeying the windows",
+    outside="other sizes and orders of consumption",
+    stubs=("strict h2 server that only sends what the client's windows allow",),
+)
+def lagging_consumer(x: int) -> None:
+    """
+    pre: x == 0
+    post: _
+    """
+    with concrete():
+        total = shard("total", 2**24 + 200_000)
+        bulk = _Bulk(total)
+        su = Setup("h2prior", False, max_connections=1, h2_policy=bulk)
+        ext = {"timeout": {"pool": 0, "read": 50}}
+        a = su.api.open(su.pool, "GET", su.url("big"), extensions=ext)
+        if not P.check(a.ok, "download-starts", lambda: f"flow:lagging:{a.kind()}"):
+            return
+        b = su.api.request(su.pool, "GET", su.url("small"), extensions=ext)
+        P.check(b.ok and b.value.status == 200, "second-stream-served-meanwhile", lambda: f"flow:lagging:second:{b.kind()}")
+        if 0 < bulk.sent < total:
+            P.cover("window-ran-dry")  # the server is now waiting for credit
+        r = su.api.read_parts(a.value)
+        su.api.close_response(a.value)
+        got = sum(len(p) for p in r.value) if r.ok else 0
+        P.check(r.ok and got == total, "credit-returned-for-consumed-DATA-reaches-the-server",
+                lambda: f"flow:lagging:stalled-or-short:{got}/{total}:{r.kind()}")
+        P.check(not su.origins[0].violations, "no-protocol-violation", "flow:lagging:violation")
+        P.check(len(su.net.socks) == 1, "one-connection", "flow:lagging:connections")
+        if r.ok and got == total:
+            P.cover("complete")
